@@ -682,7 +682,7 @@ Step gen_mutation(Rng &r, const std::string &bias)
 	} else if (o == "resign") {
 		if (r.chance(3, 4))
 			m.set("alg", r.range(1, 14));
-		m.set("signer", bias == "C02" && r.chance(1, 4) ? 8 : r.range(0, 8));
+		m.set("signer", (bias == "C02" || bias == "C09") && r.chance(1, 4) ? 8 : r.range(0, 8));
 		m.set("other", (int64_t)r.below(16));
 	} else if (o == "none")
 		m.set("variant", r.chance(1, 4) ? r.range(6, 10) : r.range(0, 5));
